@@ -306,7 +306,7 @@ pub fn run(ctx: &Ctx) -> i32 {
     let acc = par::sweep(
         total,
         256,
-        |_| Interp::new().expect("interpreter"),
+        |_| Interp::must_new(),
         |it, acc: &mut Acc, i| {
             let c = &csr[i as usize];
             acc.evals += 1;
